@@ -14,7 +14,7 @@ class_model("Issue", {
     "source_tag": "Opt[HedTag]", "has_source_tag": "Bool",
     "index_in_tag": "Int", "has_index_in_tag": "Bool",
     "index_in_tag_end": "Opt[Int]", "has_index_in_tag_end": "Bool",
-    "char_index": "Int", "has_char_index": "Bool", "char_index_end": "Int", "has_char_index_end": "Bool",
+    "char_index": "Int", "has_char_index": "Bool", "msg_char_index": "Int", "has_msg_char_index": "Bool", "char_index_end": "Int", "has_char_index_end": "Bool",
     "source_string": "Opaque", "has_source_string": "Bool",
     "def_name": "Opaque", "tag_text": "Opaque",
     # ghost view: where the issue's tag sits in the validated text (None when it cannot be located)
@@ -68,7 +68,7 @@ def _format_error(interp, args, kwargs):
     W(obj, "severity", sev)
     W(obj, "kind", kind)
     for f in ("has_source_tag", "has_index_in_tag", "has_index_in_tag_end", "has_char_index", "has_char_index_end",
-              "has_source_string"):
+              "has_source_string", "has_msg_char_index"):
         W(obj, f, False)
     if entry:
         params = list(entry["params"])
@@ -105,8 +105,10 @@ def _format_error(interp, args, kwargs):
             elif tag is not None:
                 W(obj, "has_source_tag", True)
         if "char_index" in bound and not isinstance(bound["char_index"], Opaque):
-            W(obj, "char_index", bound["char_index"])
-            W(obj, "has_char_index", True)
+            # the message functions take char_index only to print it: the issue dict itself gets no 'char_index' key from
+            # format_error (that key is written by _update_error_with_char_pos alone).  Ghost view of the printed index:
+            W(obj, "msg_char_index", bound["char_index"])
+            W(obj, "has_msg_char_index", True)
     res = Cell("list", conc=[obj], fresh=True)
     res.elem = obj.ty
     return res
